@@ -305,7 +305,17 @@ func checkMain(args []string) int {
 		if maxSteps == 0 {
 			maxSteps = 3000000
 		}
-		res := P.Explore(RunConfig{Entry: fn, Workers: workers, Solver: solver, TimeoutMs: tmo, MaxSteps: maxSteps, MaxPaths: 2000000, Params: params})
+		budget := 10 * time.Minute
+		if tier == "thorough" {
+			budget = 45 * time.Minute
+		}
+		if s := os.Getenv("VERIF_BUDGET_S"); s != "" {
+			if v, err := strconv.Atoi(s); err == nil {
+				budget = time.Duration(v) * time.Second
+			}
+		}
+		res := P.Explore(RunConfig{Entry: fn, Workers: workers, Solver: solver, TimeoutMs: tmo, MaxSteps: maxSteps, MaxPaths: 5000000, Params: params,
+			Deadline: time.Now().Add(budget), Verbose: os.Getenv("GOSYM_PROGRESS") != ""})
 		runs = append(runs, &entryRun{e, params, res})
 		fmt.Printf("[%s] %s.%s %v: paths=%d steps=%d %v queries=%d (sat %d unsat %d unknown %d) solver=%.1fs wall=%.1fs\n",
 			prop, e.Pkg, e.Func, params, res.Paths, res.Steps, res.ByStatus, res.Queries, res.NSat, res.NUnsat, res.NUnknown, res.SolveTime.Seconds(), res.Wall.Seconds())
